@@ -381,14 +381,18 @@ var c04Rapid = probe.Define("C04", "strings", func(t *rapid.T) c04In {
 	in := c04In{Entry: entry}
 	class := gen.Pick(t, "class", 2, 6, 1)
 	if class == 0 {
-		in.B, in.Origin = gen.RawBytes(t, "raw", 2000), "raw"
+		max := 2000
+		if rapid.IntRange(0, 7).Draw(t, "hugeraw") == 7 {
+			max = 65535 // the property's domain goes up to 65535 octets
+		}
+		in.B, in.Origin = gen.RawBytes(t, "raw", max), "raw"
 		return in
 	}
 	var w []byte
 	var fields []model.Field
 	switch {
 	case entry == "message" || entry == "header":
-		m := gen.Message(t, gen.Opts{MaxPayloads: 5, NoBig: true})
+		m := gen.Message(t, gen.Opts{MaxPayloads: 5, NoBig: rapid.IntRange(0, 9).Draw(t, "allowbig") != 9})
 		e := &ref.Enc{}
 		w, _ = ref.EncodeMessage(m, e)
 		fields = e.Fields
@@ -445,7 +449,11 @@ var c04Unprotect = probe.Define("C04", "unprotect", func(t *rapid.T) c04In {
 	}
 	switch gen.Pick(t, "class", 2, 3, 4, 3) {
 	case 0:
-		in.B, in.Origin = gen.RawBytes(t, "raw", 1000), "raw"
+		max := 1000
+		if rapid.IntRange(0, 7).Draw(t, "hugeraw") == 7 {
+			max = 65535
+		}
+		in.B, in.Origin = gen.RawBytes(t, "raw", max), "raw"
 	case 1:
 		m := gen.Message(t, gen.Opts{MaxPayloads: 4, NoBig: true})
 		e := &ref.Enc{}
